@@ -7,8 +7,8 @@ EXTENDS WriterAbs, Json, IOUtils
 
 Rec == ndJsonDeserialize(IOEnv.TRACE)
 
-VARIABLES l, run
-tvars == <<wabsVars, l, run>>
+VARIABLES l, run, c11
+tvars == <<wabsVars, l, run, c11>>
 
 ToSet(s) == {s[i] : i \in DOMAIN s}
 Sub(s) == IF s.k = "GAP" THEN [k |-> "GAP", set |-> ToSet(s.set)] ELSE s
@@ -23,7 +23,7 @@ C06Viol(e) ==
   \cup (IF e.us > 250000 THEN {"C06_time_out_of_proportion"} ELSE {})
   \cup (IF e.alloc > 1048576 + 256 * e.len THEN {"C06_memory_out_of_proportion"} ELSE {})
 
-TraceInit == WAbsInit(TRUE, FALSE, 1) /\ l = 1 /\ run = 0
+TraceInit == WAbsInit(TRUE, FALSE, 1) /\ l = 1 /\ run = 0 /\ c11 = {}
 
 Reset(e) ==
   /\ relW' = e.rel /\ volW' = e.vol /\ depthLim' = e.depth
@@ -55,6 +55,14 @@ Step ==
                                  /\ viol' = viol \cup C06Viol(e)
                                  /\ UNCHANGED <<run, relW, volW, depthLim, wr, rd, ackLo, ackHi, req, pre, conf, wAct, wUntil, wMay, wMust>>
        [] e.ev \in {"HostileBegin", "RunDone"} -> UNCHANGED <<wabsVars, run>>
+  \* C11 on the writer side: the readers the Writer holds proxies for are those discovery matched and has not taken away;
+  \* no ACKNACK, timer or write adds or removes one (reported once per run, with its own line)
+  /\ LET e == Rec[l] IN
+       ("readers" \in DOMAIN e /\ ToSet(e.readers) # {r \in Readers : rd'[r] # "none"} /\ "C11_writer_matched_set_differs_from_discovery" \notin c11) =>
+          PrintT("VIOL line=" \o ToString(l) \o " run=" \o ToString(run') \o " clauses=" \o ToString({"C11_writer_matched_set_differs_from_discovery"}))
+  /\ c11' = (IF Rec[l].ev = "Reset" THEN {}
+             ELSE IF "readers" \in DOMAIN Rec[l] /\ ToSet(Rec[l].readers) # {r \in Readers : rd'[r] # "none"}
+                    THEN c11 \cup {"C11_writer_matched_set_differs_from_discovery"} ELSE c11)
   /\ (viol' # viol /\ viol' # {}) =>
         PrintT("VIOL line=" \o ToString(l) \o " run=" \o ToString(run') \o " clauses=" \o ToString(viol' \ viol))
 
